@@ -33,6 +33,9 @@
 //!   mintout <variant 0|1> <cpb> <mvs> ADDR <namelen> <qty> DAT SREF <coin>     add_mint_asset_and_output (0, explicit coin) /
 //!        add_mint_asset_and_output_min_required_coin (1); then set_fee + build_tx_unsafe on the same builder
 //!        -> ok|err <nout> { <coin> <size> <vsize> }*  (outputs of the released body, whatever the call answered) | ok|err none
+//!   plutus <mts> <n> <kind>      Plutus input with witness datum D + extra witness datum D' = the same value spelled differently
+//!        (0 indefinite / definite list of n items, 1 wide / minimal head, 2 identical, 3 indefinite / definite map); hand-set fee
+//!        -> ok|toobig F=<full_size> L=<bytes of the transaction handed out, 0 if none> B= T= U=
 //!   txsize <mts> I <n> { <coin> MA }* O <n> { OUT }* F <fee>     (fee set by hand, no change; mainnet price)
 //!        -> ok|toobig <full_size> <bytes of the transaction build_tx / build_tx_unsafe returned, 0 if none> B=<ok|err> T=<ok|err> U=<ok|err> | err:addout | err:size
 //! Everything the size code does not look at (hash bytes, key bytes, asset-name bytes) is derived from the
@@ -465,6 +468,39 @@ fn exec(toks: &[String]) -> String {
             }
             s
         }
+        "plutus" => {
+            // a Plutus script input with witness datum D, plus an extra witness datum D' (add_extra_witness_datum) that is the
+            // SAME value read from different CBOR bytes; hand-set fee; every build entry point; size of what is handed out
+            let mts = p.num() as u32; let n = p.us(); let kind = p.num();
+            let list_def = |n: usize, wide: bool| -> Vec<u8> {
+                let mut b = if wide { let mut h = vec![0x9bu8]; h.extend(&(n as u64).to_be_bytes()); h } else { let mut h = cbor_head(4, n as u64); h.truncate(9); h };
+                b.extend(std::iter::repeat(0x01u8).take(n)); b };
+            let list_indef = |n: usize| -> Vec<u8> { let mut b = vec![0x9fu8]; b.extend(std::iter::repeat(0x01u8).take(n)); b.push(0xff); b };
+            let map_def = |n: usize| -> Vec<u8> { let mut b = cbor_head(5, n as u64); for i in 0..n { b.extend(cbor_head(0, i as u64)); b.push(0x01); } b };
+            let map_indef = |n: usize| -> Vec<u8> { let mut b = vec![0xbfu8]; for i in 0..n { b.extend(cbor_head(0, i as u64)); b.push(0x01); } b.push(0xff); b };
+            let (b1, b2) = match kind { 0 => (list_indef(n), list_def(n, false)), 1 => (list_def(n, true), list_def(n, false)),
+                                        2 => (list_def(n, false), list_def(n, false)), _ => (map_indef(n), map_def(n)) };
+            let d1 = match PlutusData::from_bytes(b1) { Ok(d) => d, Err(_) => return BAD.into() };
+            let d2 = match PlutusData::from_bytes(b2) { Ok(d) => d, Err(_) => return BAD.into() };
+            let mut tb = TransactionBuilder::new(&cfg(4310, 5000, mts, false));
+            let script = PlutusScript::new(vec![0x4e, 0x4d, 0x01, 0x00, 0x00, 0x33, 0x22, 0x22, 0x00, 0x51, 0x20, 0x01, 0x20, 0x01, 0x11]);
+            let redeemer = Redeemer::new(&RedeemerTag::new_spend(), &bn(0), &PlutusData::new_integer(&BigInt::from(0u64)), &ExUnits::new(&bn(1000), &bn(1_000_000)));
+            let witness = PlutusWitness::new(&script, &d1, &redeemer);
+            let mut inputs = TxInputsBuilder::new();
+            inputs.add_plutus_script_input(&witness, &TransactionInput::new(&TransactionHash::from_bytes(vec![7u8; 32]).unwrap(), 0), &Value::new(&bn(10_000_000)));
+            tb.set_inputs(&inputs);
+            tb.add_extra_witness_datum(&d2);
+            let addr = mk_addr("b", 57, 3).unwrap();
+            if tb.add_output(&TransactionOutput::new(&addr, &Value::new(&bn(9_000_000)))).is_err() { return BAD.into(); }
+            tb.set_fee(&bn(1_000_000));
+            let f = tb.full_size();
+            let b = tb.build().is_ok();
+            let t = tb.build_tx();
+            let u = tb.build_tx_unsafe();
+            let txlen = match (&t, &u) { (Ok(tx), _) => tx.to_bytes().len(), (_, Ok(tx)) => tx.to_bytes().len(), _ => 0 };
+            let okerr = |x: bool| if x { "ok" } else { "err" };
+            format!("{} F={} L={} B={} T={} U={}", if b { "ok" } else { "toobig" }, f.map(|x| x.to_string()).unwrap_or("err".into()), txlen, okerr(b), okerr(t.is_ok()), okerr(u.is_ok()))
+        }
         "txsize" => {
             let mts = p.num() as u32;
             p.expect("I");
@@ -853,6 +889,19 @@ fn gen(dir: &str) {
                     }
                 }
             }
+        }
+    }
+    // --- extra witness datums that are value-equal re-spellings of a script witness's datum: what full_size() measures must cover what is emitted
+    for k in 0..(10 * scale) {
+        let n = match r.below(4) { 0 => r.range(1, 23) as usize, 1 => r.range(24, 255) as usize, 2 => r.range(256, 1500) as usize, _ => 600 };
+        let kind = k % 4;
+        let probe: Vec<String> = format!("plutus 1000000 {} {}", n, kind).split_whitespace().map(|s| s.to_string()).collect();
+        let res = guarded(move || exec(&probe));
+        let num = |pre: &str| -> u64 { res.split_whitespace().find_map(|t| t.strip_prefix(pre)).and_then(|x| x.parse().ok()).unwrap_or(800) };
+        let (f, l) = (num("F="), num("L="));
+        let (lo, hi) = (f.min(l), f.max(l));
+        for mts in [lo.saturating_sub(1), lo, lo + 1, (lo + hi) / 2, hi.saturating_sub(1), hi, hi + 1] {
+            emit(&mut out, format!("plutus {} {} {}", mts, n, kind));
         }
     }
     // --- build(): max_tx_size guard, limit = full size - 1 / = / + 1 and random
